@@ -526,6 +526,8 @@ def cases_c09(rng, thorough):
         for src in G.all_interleavings(streams, cap=None if thorough else 12, rng=rng):
             cases.append(mux_case([op], src))
         if op['op'] == 'duc' and op['f']['n'] == 'id':
+            for xs in ([NONE], [NONE, I(1)], [NONE, NONE, I(0)], [I(0), NONE, NONE], [['s', ''], NONE]):
+                cases.append(mux_case([op], G.key_stream(rng.choice([0, 2]), xs)))     # a leading None / falsy key
             for _ in range(12 if thorough else 4):     # None / falsy / colliding-hash keys first
                 lts = [(idx, [rng.choice(KEYLIKE) for _ in range(rng.randint(0, 5))]) for idx in (0, 2)]
                 cases.append(mux_case([op], G.schedule(rng, lts)))
